@@ -197,17 +197,15 @@ def patterned_cases(rng, tier):
                 spec = dict(style=style, diag=diag)
                 brows = list(range(n))
             else:
-                def ival():
-                    lo = rng.randrange(n); hi = rng.randrange(lo, n)
-                    return list(range(lo, hi + 1))
-                rows, cols = ival(), ival()
-                if style == "dense": rows = cols = list(range(n))
-                brows = ival()
+                # typed patterns: the index range is a sum of consecutive segments and every
+                # axis is supported on exactly one of them (overlapping supports are ill-typed)
+                cuts = sorted(rng.sample(range(1, n), rng.choice([1, 1, 2]) if n > 2 else 1))
+                bounds = [0] + cuts + [n]
+                segs = [list(range(bounds[i], bounds[i + 1])) for i in range(len(bounds) - 1)]
+                rows, cols, brows = rng.choice(segs), rng.choice(segs), rng.choice(segs)
+                if style == "dense": rows = cols = brows = list(range(n))
                 if style == "disjoint":     # support of a's columns disjoint from b's support (F18)
-                    if n < 2: continue
-                    cut = rng.randrange(1, n)
-                    brows = list(range(0, cut)); cols = list(range(cut, n))
-                    if rng.random() < 0.5: brows, cols = cols, brows
+                    cols, brows = rng.sample(segs, 2)
                 _, D = U.gen_dense(rng, name, n)
                 sub = [[D[i][j] for j in cols] for i in rows]
                 A = [[D[i][j] if (i in rows and j in cols) else z for j in range(n)] for i in range(n)]
@@ -256,10 +254,17 @@ def numel(s):
     for d in s: r *= d
     return r
 
+class NT:
+    """a hashable non-tuple key object (MultiTensor treats tuple keys as key pairs)"""
+    def __init__(self, i): self.i = i
+    def __hash__(self): return hash(("NT", self.i))
+    def __eq__(self, other): return isinstance(other, NT) and other.i == self.i
+    def __repr__(self): return "NT(%d)" % self.i
+
 def key_obj(kind, i):
     if kind == 0: return i
     if kind == 1: return "X%d" % i
-    return (i, "nt")
+    return NT(i)
 
 def multi_cases(rng, tier):
     cases = []
@@ -459,6 +464,35 @@ def violation_for(code, c, observed, call, extra=None):
                      corr="C09_elimination_least / C09_oracle_sound / corr:%s" % c["kind"],
                      failing_input_found=found, call=call, finding_key=fk)
 
+def run_models_parallel(jobs, seed):
+    """jobs: list of (cf, values, coq_sample, tag).  Same contract as core.run_model for each job
+    (bulk through the extracted driver; a sample and every non-zero verdict re-evaluated in the
+    kernel with vm_compute, both must agree), but the coqc runs of all jobs are concurrent."""
+    from concurrent.futures import ThreadPoolExecutor
+    plans = []
+    for cf, values, coq_sample, tag in jobs:
+        codes = run_ocaml(cf, values)
+        rng = random.Random(seed * 7919 + 13)
+        idx = list(range(len(values)))
+        bad = [i for i in idx if codes[i] != 0][:40]
+        rest = [i for i in idx if codes[i] == 0]
+        rng.shuffle(rest)
+        pick = sorted(set(bad + rest[:coq_sample]))
+        plans.append((cf, values, codes, pick, tag))
+    def kernel(plan):
+        cf, values, codes, pick, tag = plan
+        if not pick: return []
+        return run_coq(cf, [values[i] for i in pick], jobs=2, tag=tag)
+    with ThreadPoolExecutor(max_workers=6) as ex:
+        results = list(ex.map(kernel, plans))
+    out = []
+    for (cf, values, codes, pick, tag), ccodes in zip(plans, results):
+        for i, c in zip(pick, ccodes):
+            if c != codes[i]:
+                raise BuildError("extracted code and vm_compute disagree on %s case %d: %d vs %d" % (cf.kind, i, codes[i], c))
+        out.append((codes, len(pick)))
+    return out
+
 def nontrivial(c):
     if c["kind"] in ("dense", "patterned"):
         n = c["n"]; z = U.zero_of(c["semiring"])
@@ -466,6 +500,8 @@ def nontrivial(c):
     return len(c["a"]) >= 2
 
 def run(tier, seed):
+    import time as _time
+    t_start = _time.time(); phase = {}
     rng = random.Random(seed)
     violations = []
     hist = {}
@@ -506,22 +542,6 @@ def run(tier, seed):
             lu = None
             if r["lu"] and r["lu"][0][0] == "ok": lu = lu_wire(r["lu"][0][1])
             lus.append((c, (c["n"], U.wire_mat(name, c["A"]), [U.wire_val(name, row[0]) for row in c["B"]], lu, [row[0] for row in r["X"]]), r))
-    for carrier, items in batches.items():
-        codes, nk = run_model(DENSE[carrier], [v for _, v, _, _ in items], coq_sample=12, seed=seed, tag="c09-dense-" + carrier)
-        kernel += nk
-        for (c, v, X, call), code in zip(items, codes):
-            if code: violations.append(violation_for(code, c, X, call))
-        if items and len(samples) < 6:
-            c, v, X, call = items[len(items) // 2]
-            samples.append(dict(case={k: U.jsonable(x) for k, x in c.items()}, impl_output=U.jsonable(X)))
-    codes, nk = run_model(LU, [v for _, v, _ in lus], coq_sample=12, seed=seed, tag="c09-lu")
-    kernel += nk
-    lu_taken = 0
-    for (c, v, r), code in zip(lus, codes):
-        if v[3] is not None: lu_taken += 1
-        if code in (0, 8): continue       # 8 is reported by the dense check of the same case
-        violations.append(violation_for(code, c, r["X"], "RealSemiring.solve (LU path)", extra=dict(lu=[repr(x) for x in r["lu"]])))
-    evals += len(lus)
 
     # ---- (ii) multi_solve
     mb = {"ereal": [], "trop": [], "bool": []}
@@ -545,22 +565,6 @@ def run(tier, seed):
             if all(list(s) == sorted(s) for s in g.values()):
                 orders.append((c, (r["okeys"], r["oshape_keys"], r["order"])))
             else: order_sets_ok = False
-    for carrier, items in mb.items():
-        codes, nk = run_model(MSOLVE[carrier], [v for _, v, _ in items], coq_sample=10, seed=seed, tag="c09-ms-" + carrier)
-        kernel += nk
-        for (c, v, r), code in zip(items, codes):
-            if code: violations.append(violation_for(code, c, r["out"], "fggs.multi.multi_solve", extra=dict(order=r["order"])))
-        if items:
-            c, v, r = items[len(items) // 3]
-            samples.append(dict(case={k: U.jsonable(x) for k, x in c.items()}, order=r["order"], impl_output=U.jsonable(r["out"])))
-    codes, nk = run_model(ORDER, [v for _, v in orders], coq_sample=10, seed=seed, tag="c09-order")
-    kernel += nk
-    for (c, v), code in zip(orders, codes):
-        if code:
-            violations.append(Violation("_order_nonterminals: " + ("the order is not a duplicate-free enumeration of the shape keys" if code == 1 else "order differs from the model (code %d)" % code),
-                                        case=dict(keys=v[0], shape_keys=v[1]), observed=v[2], oracle="order_check" if code == 1 else None,
-                                        corr="corr:order_nonterminals", failing_input_found=(code == 1), call="fggs.multi._order_nonterminals"))
-    evals += len(orders)
 
     # ---- multi_mv
     vb = {"ereal": [], "trop": [], "bool": []}
@@ -575,10 +579,46 @@ def run(tier, seed):
         if r["modified"]:
             violations.append(Violation("multi_mv modified its arguments", case={k: U.jsonable(v) for k, v in c.items()}, call=call, corr="arguments unmodified"))
         vb[CARRIER_OF[name]].append((c, multi_mv_value(c, r), r))
-    for carrier, items in vb.items():
-        codes, nk = run_model(MMV[carrier], [v for _, v, _ in items], coq_sample=10, seed=seed, tag="c09-mv-" + carrier)
-        kernel += nk
+    phase["implementation_calls_s"] = round(_time.time() - t_start, 1); t_model = _time.time()
+    # ---- run the model side (extracted code + kernel re-evaluation), all check functions at once
+    carriers = ["ereal", "trop", "bool"]
+    jobs = [(DENSE[k], [v for _, v, _, _ in batches[k]], 10, "c09-dense-" + k) for k in carriers]
+    jobs.append((LU, [v for _, v, _ in lus], 8, "c09-lu"))
+    jobs += [(MSOLVE[k], [v for _, v, _ in mb[k]], 8, "c09-ms-" + k) for k in carriers]
+    jobs.append((ORDER, [v for _, v in orders], 8, "c09-order"))
+    jobs += [(MMV[k], [v for _, v, _ in vb[k]], 8, "c09-mv-" + k) for k in carriers]
+    res = run_models_parallel(jobs, seed)
+    kernel = sum(nk for _, nk in res)
+    phase["model_and_kernel_s"] = round(_time.time() - t_model, 1)
+    rd = res[0:3]; rlu = res[3]; rms = res[4:7]; rord = res[7]; rmv = res[8:11]
+    for k, (codes, _) in zip(carriers, rd):
+        items = batches[k]
+        for (c, v, X, call), code in zip(items, codes):
+            if code: violations.append(violation_for(code, c, X, call))
+        if items:
+            c, v, X, call = items[len(items) // 2]
+            samples.append(dict(case={kk: U.jsonable(x) for kk, x in c.items()}, impl_output=U.jsonable(X)))
+    lu_taken = 0
+    for (c, v, r), code in zip(lus, rlu[0]):
+        if v[3] is not None: lu_taken += 1
+        if code in (0, 8): continue       # 8 is reported by the dense check of the same case
+        violations.append(violation_for(code, c, r["X"], "RealSemiring.solve (LU path)", extra=dict(lu=[repr(x) for x in r["lu"]])))
+    evals += len(lus)
+    for k, (codes, _) in zip(carriers, rms):
+        items = mb[k]
         for (c, v, r), code in zip(items, codes):
+            if code: violations.append(violation_for(code, c, r["out"], "fggs.multi.multi_solve", extra=dict(order=r["order"])))
+        if items:
+            c, v, r = items[len(items) // 3]
+            samples.append(dict(case={kk: U.jsonable(x) for kk, x in c.items()}, order=r["order"], impl_output=U.jsonable(r["out"])))
+    for (c, v), code in zip(orders, rord[0]):
+        if code:
+            violations.append(Violation("_order_nonterminals: " + ("the order is not a duplicate-free enumeration of the shape keys" if code == 1 else "order differs from the model (code %d)" % code),
+                                        case=dict(keys=v[0], shape_keys=v[1]), observed=v[2], oracle="order_check" if code == 1 else None,
+                                        corr="corr:order_nonterminals", failing_input_found=(code == 1), call="fggs.multi._order_nonterminals"))
+    evals += len(orders)
+    for k, (codes, _) in zip(carriers, rmv):
+        for (c, v, r), code in zip(vb[k], codes):
             if code:
                 vv = violation_for(code, c, r["out"], "fggs.multi.multi_mv")
                 if code == 1: vv.what = "fggs.multi.multi_mv [%s]: the output is not the dense matrix-vector product of the assembled blocks" % c["semiring"]; vv.oracle = "dense mv_model of assembled blocks"
@@ -587,14 +627,13 @@ def run(tier, seed):
     cov = dict(evaluations=evals, distinct_nontrivial=len(seen_nontrivial),
                rule="dense/patterned: n <= 4, entries from the exact grids (Real/Log: 0, 1/4, 1/2, 1, 2, inf; Viterbi: -inf, -3..2, +inf; Bool), classes forcing spectral radius < 1 (row sums < 1 / negative weights), = 1 (row-stochastic, zero-weight cycles), > 1, infinite entries, zero rows, triangular; vector and matrix right-hand sides. multi: all 16 x 4 presence patterns of a 2-block system x transpose, sampled 3- and 4-block systems, block shapes (), (2,), (2,2), (3,), three key types, order recorded from the implementation. non-trivial = dense: n >= 2 with a non-zero off-diagonal entry; multi: >= 2 present blocks; distinct by full case content",
                samples=samples[:6], histogram=hist, kernel_reevaluated=kernel, lu_path_observed=lu_taken,
-               order_model_set_iteration_assumption_held=order_sets_ok,
+               order_model_set_iteration_assumption_held=order_sets_ok, phase_seconds=phase,
                open_items=OPEN_ITEMS)
     return cov, violations
 
 OPEN_ITEMS = [
     "C09_block_elimination_least: the block (non-commutative) version of C09_elimination_least and the refinement multi_solve_model -> block elimination are not proved; every run compares multi_solve_model with the dense solve_model on the assembled system (code 13) and judges the implementation output with the dense oracles",
-    "C09_real_lu_path: stated in notes/C09.md, not proved (needs field reasoning on the finite part of ereal); at run time real_lu_check compares the accepted LU answer with the generic answer",
-    "C09_bool_series_exact_upto3: equality series_n = solve in bool is a bounded in-kernel theorem (n <= 3)",
+    "C09_bool_series_exact_upto3 (bounded in-kernel check, n <= 3) is kept beside the unbounded C09_least_is_series_bool_exact",
     "tier B: PatternedTensor.solve's solution-axis iteration (terminates, covers the support) is not modelled; its output is judged densely",
 ]
 
